@@ -73,6 +73,17 @@ if os.path.exists(u):
         pth = f'{V}/notes/ph_{k}.txt'
         t = t.replace('@' + k + '@', open(pth).read().strip() if os.path.exists(pth) else '(pending)')
     s = s.replace('### 16.7 Numbers', t + '### 16.7 Numbers')
+hh = f'{V}/notes/round_h_prose.md'
+if os.path.exists(hh):
+    ch = counts('h')
+    t = open(hh).read()
+    t = t.replace('@HTABLE@', table('h')).replace('@HN@', str(ch['n'])).replace('@HFIRST@', str(ch['first'])).replace('@HFLAG@', str(ch['first_flag'])).replace('@HMISSED@', str(ch['first_missed'])).replace('@HNAMED@', str(ch['named']))
+    hl = []
+    for (i, res, scope) in ch['left']:
+        why = open(f'{V}/notes/left_{i}.txt').read().strip() if os.path.exists(f'{V}/notes/left_{i}.txt') else (scope or 'no rule written in the time box')
+        hl.append(f"* **{i}** ({'outside the property' if scope else res}): {why}")
+    t = t.replace('@HLEFT@', "\n".join(hl) if hl else '(none)')
+    s = s.replace('### 16.7 Numbers', t + '### 16.7 Numbers')
 d = open(f'{V}/DESIGN.md').read()
 i = d.find('\n## 16. ')
 if i >= 0:
